@@ -541,7 +541,7 @@ func text(version string, b *baseEvent, subs []sub, withHash bool) []byte {
 	return signed
 }
 
-func main() { harness.Main("C18", "bounded_exhaustive", run) }
+func main() { harness.Main("C18", "model_checking", run) }
 
 func run(r *harness.Run) {
 	r.Rule("(i) for every registered room version and each of 15 valid base events (create, six member shapes, mxid-mapped member, power levels, join rules, third-party invite, aliases, redaction, history visibility, message): every substitution of one member (16 top-level members and every content member the auth / redaction code reads) by every value of its menu (every JSON kind, integers at +-2^53, 2^63, 2^64, fractions, malformed and oversized identifiers, invalid UTF-8), with and without a matching content hash, and every pair of substitutions over reduced menus; each text through NewEventFromUntrustedJSON / TrustedJSON / TrustedJSONWithEventID / EventJSONs.UntrustedEvents, and every accepted event through every PDU accessor, Sign, SetUnsigned, Redact, CheckFields, content parsers, VerifyEventSignatures, StateNeededForAuth, Allowed (as the checked event and as an auth event of 15 valid probes, three sender-resolution behaviours), all three resolvers, topological orderings, VerifyEventAuthChain, CheckStateResponse / CheckSendJoinResponse, HandleSendJoin, HandleInvite, and the fclient response / request unmarshallers. (ii) all byte strings up to a length over token alphabets and all single-byte corruptions of valid texts through CanonicalJSON, EnforcedCanonicalJSON, CompactJSON, SortJSON, VerifyJSON, ListKeyIDs, ServerKeys / CheckKeys, ParseAuthorization, identifier parsers and the event parsers. Oracle: no panic.")
